@@ -110,6 +110,18 @@ def check(repo: Repo, rep: Report) -> None:
         rep.ob("X1-boundary-agreement", "reactivex/operators", "take_last / skip_last complementary at age == duration",
                emitted_at_eq["take_last_with_time_"] != emitted_at_eq["skip_last_with_time_"],
                "take_last_with_time and skip_last_with_time both keep (or both drop) the element whose age equals the duration")
+    # take_with_time / skip_with_time split the source at one boundary: both arm their timer before subscribing the source, so
+    # an element of a cold source placed exactly at the boundary meets the closed take gate and the open skip gate
+    rep.rule("X4-boundary-split", "take_with_time / skip_with_time arm the boundary timer before subscribing the source (same tie-break)", floor=2)
+    from ..model import is_schedule_call as _isch
+    for rel_, q_ in ((f"{O}_takewithtime.py", "take_with_time_.subscribe"), (f"{O}_skipwithtime.py", "skip_with_time_.subscribe")):
+        r_ = repo.fn(rel_, q_)
+        sch_ = [x for x in sites(r_) if _isch(x.node)]
+        sub_ = [x for x in sites(r_) if is_subscribe_call(x.node)]
+        rep.ob("X4-boundary-split", r_, f"{q_.split('.')[0]}: timer scheduled before source.subscribe", bool(sch_) and bool(sub_) and max(x.index for x in sch_) < min(x.index for x in sub_),
+               f"{q_.split('.')[0]} subscribes its source before arming the boundary timer: with a cold source an element exactly at the boundary is "
+               f"handled before the gate moves, so take_with_time and skip_with_time no longer split the source at one boundary (the element is "
+               f"passed by both or by neither)")
     # timeout
     from . import sync_common as SY
     rep.rule("X3-fallback-survives", "the fallback subscription stored by the timer is never replaced by the late store of another subscription", floor=2)
@@ -121,8 +133,11 @@ def check(repo: Repo, rep: Report) -> None:
     # roles: the id is the cell the element handler increments; the captured id the local of create_timer copied from it;
     # the fallback subscription is the `.subscribe(observer, ...)` made by the timer action
     ids = names_augmented(t.child("on_next"), ast.Add)
-    rep.require(len(ids) == 1, "timeout_: id cell")
-    idc = ids[0]
+    idc = ids[0] if len(ids) == 1 else "?id-cell"
+    if len(ids) != 1:
+        rep.ob("X2-timeout-stale-guard", t.child("on_next"), "timeout_.on_next bumps the timer generation id", False,
+               "timeout: an arriving element does not invalidate the armed timer (no id bump): the stale timer can still switch to the "
+               "fallback while the element is being delivered")
     ct = t.child("create_timer")
     cap = [s for s in sites(ct) if isinstance(s.node, ast.Assign) and cell_name(s.node.value) == idc and isinstance(s.node.targets[0], ast.Name)]
     idv = cap[0].node.targets[0].id if cap else None
